@@ -141,6 +141,7 @@ func (ts *BackgroundTaskManager) InvokeBackgroundTask(do func(context.Context), 
 			select {
 			case <-ch: // some prioritized tasks started; retry it later
 				cancel()
+				<-done // wait for the cancelled task to return before releasing the slot and retrying
 				return false
 			case <-done: // All tasks completed
 			}
